@@ -598,6 +598,29 @@ func checkTCP(r *vlib.Run, h *hook, c tcpCase) {
 		} else if kv["local_closed"] != "1" {
 			fail("conn-left-open", "copyLoop returned without closing the local conn")
 		}
+	case "sockspipe":
+		// property: what is forwarded is always an in-order, unaltered prefix of what the source
+		// produced — from its first byte: either every byte the SOCKS client sent after its
+		// request is relayed, or the connection is refused; never a silent gap
+		f := strings.Fields(c.Cmd)
+		n, _ := strconv.Atoi(f[2])
+		want := make([]byte, n)
+		for i := range want {
+			want[i] = byte(i) ^ byte(i>>8)*7 ^ byte(i>>16)*13 ^ 0x5c
+		}
+		got := vlib.UnHex(kv["got"])
+		if kv["dialed"] == "1" {
+			if !bytes.Equal(got, want) {
+				d := 0
+				for d < len(got) && d < len(want) && got[d] == want[d] {
+					d++
+				}
+				fail("relayed-stream-has-gap", fmt.Sprintf("the SOCKS client sent its CONNECT request and the first %s bytes of a %d-byte stream in one write, the rest after the reply, then EOF; the connection was accepted, and the transport conn received %d bytes that agree with the client's stream only up to offset %d", f[1], n, len(got), d))
+			}
+		} else if len(got) != 0 {
+			fail("relayed-stream-has-gap", "the connection was refused and yet bytes reached the transport conn")
+		}
+		r.Count("sockspipe", map[bool]string{true: "accepted", false: "refused"}[kv["dialed"] == "1"])
 	case "orburst":
 		// property: a side that ends while the other is healthy has had all its earlier bytes forwarded first
 		if kv["got"] != kv["sent"] || kv["hash"] != "ok" || kv["end"] != "eof" {
@@ -609,6 +632,7 @@ func checkTCP(r *vlib.Run, h *hook, c tcpCase) {
 var tcpCmds = []string{
 	"proxyrelay local-first", "proxyrelay proxy-first",
 	"orburst 4194304 65536 4000", "orburst 262144 4096 2000", "orburst 1048576 1024 0", "orburst 3000000 32768 1000",
+	"sockspipe 0 300", "sockspipe 1 300", "sockspipe 7 300", "sockspipe 299 300", "sockspipe 300 300", "sockspipe 5000 40000", "sockspipe 0 40000", "sockspipe 0 0",
 }
 
 // ---------------------------------------------------------------- handlers (clientHandler / serverHandler)
